@@ -173,6 +173,31 @@ def execute(ctx, case: dict) -> None:
             from cisco_acl import Address  # pylint: disable=import-outside-toplevel
 
             ace = top if mut["who"] == "top" else bottom
+            if mut["op"] in ("option", "srcport", "dstport", "addr"):
+                # a field edited through its sub-object: the entry now is what it renders
+                try:
+                    if mut["op"] == "option":
+                        ace.option.line = mut["text"]
+                    elif mut["op"] == "addr":
+                        sub = ace.srcaddr if mut["side"] == "src" else ace.dstaddr
+                        if sub.addrgroup:
+                            continue
+                        sub.line = mut["text"]
+                    else:
+                        sub = getattr(ace, mut["op"])
+                        if not sub.operator:
+                            continue  # a Port built without expression has no protocol and hides what is assigned (C19 note)
+                        sub.line = mut["text"]
+                except (ValueError, TypeError):
+                    continue
+                ctx.count("subobject_edits_then_requery")
+                try:
+                    bottom.shadow_of(top)
+                    top.shadow_of(bottom)
+                    bottom.shadow_of(top, skip=["addrgroup"])
+                except Exception as ex:  # pylint: disable=broad-except
+                    ctx.violation(case, "shadow_of raised after a field was edited through its sub-object", f"{type(ex).__name__}: {ex}")
+                continue
             addr = ace.srcaddr if mut["side"] == "src" else ace.dstaddr
             if not addr.addrgroup:
                 continue
@@ -285,6 +310,18 @@ def run(ctx, exact: bool = False, groups: bool = True) -> None:
                     muts.append({"who": who, "side": side, "op": rng.choice(["append", "pop", "line", "line"]),
                                  "idx": rng.randrange(4), "text": spell(rng, cube, platform, "Address")})
                 case["muts"] = muts
+            if rng.random() < 0.3:
+                from vcheck.checks.C13 import rand_cube, spell  # pylint: disable=import-outside-toplevel
+
+                edits = []
+                for _ in range(rng.randint(1, 3)):
+                    op = rng.choice(["option", "option", "srcport", "dstport", "addr"])
+                    text = {"option": rng.choice(["", "", "ack", "syn", "log", "ack syn", "established"]),
+                            "srcport": rng.choice(["eq 80", "range 1 1024", "gt 1023", "neq 22", "lt 3"]),
+                            "dstport": rng.choice(["eq 80", "range 1 1024", "gt 1023", "neq 22", "eq 443"]),
+                            "addr": spell(rng, sc._small_cube(rng, sc.SMALL) if rng.random() < 0.5 else rand_cube(rng, 2), platform, "Address")}[op]
+                    edits.append({"who": rng.choice(["top", "bottom"]), "side": rng.choice(["src", "dst"]), "op": op, "text": text})
+                case["muts"] = case.get("muts", []) + edits
             execute(ctx, case)
             if grouped:
                 ctx.count("grouped_pairs")
@@ -305,6 +342,7 @@ def run(ctx, exact: bool = False, groups: bool = True) -> None:
     for key, val in STATS.items():
         ctx.count(key, val)
     ctx.count("cases", done)
+    ctx.count("fields_taken_from_text_because_object_disagreed", sc.TEXT_VIEW["overrides"])
 
 
 def replay(ctx, case: dict) -> None:
